@@ -513,6 +513,16 @@ func (e *Engine) scalarJSON(v Value, f pfield, site ssa.Instruction) *JSON {
 	case kFloat, kDouble:
 		return &JSON{Kind: "num", N: T(v)}
 	case kEnum:
+		// proto3 JSON writes the value's name (the number for values without a name); names
+		// come from the generated <Enum>_name table when the value is concrete
+		if t := T(v); t.Const {
+			if names := e.enumNames(f.goType); names != nil {
+				if n, ok := names[int32(signExt(t.UVal, 32))]; ok {
+					return &JSON{Kind: "str", S: mkStr(n)}
+				}
+				return &JSON{Kind: "num", N: intOf(t, true), NBV: t, NBVS: true}
+			}
+		}
 		return &JSON{Kind: "enum", N: intOf(T(v), true)}
 	case kBytes:
 		bt, _ := bytesOf(v)
@@ -758,7 +768,24 @@ func (e *Engine) scalarFromJSON(v *JSON, f pfield, site ssa.Instruction) (Value,
 		if v.Kind == "num" || v.Kind == "enum" {
 			return bvOfInt(v.N, 32), nil
 		}
-		e.abort("unsupported", "protojson model: enum names")
+		if v.Kind == "str" {
+			names := e.enumNames(f.goType)
+			if names == nil {
+				e.abort("unsupported", "protojson model: enum names of %v", f.goType)
+			}
+			nums := make([]int, 0, len(names))
+			for n := range names {
+				nums = append(nums, int(n))
+			}
+			sort.Ints(nums)
+			for _, n := range nums {
+				if e.decide(Eq(v.S, mkStr(names[int32(n)]))) {
+					return mkBV(32, uint64(uint32(int32(n)))), nil
+				}
+			}
+			return bad()
+		}
+		return bad()
 	case kMessage:
 		if tt := f.goType; isTimestampPtr(tt) || isTimestampSlice(tt) {
 			return e.timestampFromJSON(v, tt, bad)
@@ -1283,4 +1310,47 @@ func (e *Engine) timestampFromJSON(v *JSON, tt types.Type, bad func() (Value, Va
 	}
 	*c = z
 	return Ptr{P: c}, nil
+}
+
+
+// enumNames reads the generated <Enum>_name table (number -> proto name) of an enum type.
+func (e *Engine) enumNames(t types.Type) map[int32]string {
+	if sl, ok := t.Underlying().(*types.Slice); ok {
+		t = sl.Elem()
+	}
+	if p, ok := t.Underlying().(*types.Pointer); ok && t == t.Underlying() {
+		t = p.Elem()
+	}
+	n, ok := t.(*types.Named)
+	if !ok || n.Obj().Pkg() == nil {
+		if p, ok2 := t.(*types.Pointer); ok2 {
+			return e.enumNames(p.Elem())
+		}
+		return nil
+	}
+	pkg := e.prog.ImportedPackage(n.Obj().Pkg().Path())
+	if pkg == nil {
+		return nil
+	}
+	g, ok := pkg.Members[n.Obj().Name()+"_name"].(*ssa.Global)
+	if !ok {
+		return nil
+	}
+	m, ok := (*e.globalCell(g)).(*Map)
+	if !ok || m == nil {
+		return nil
+	}
+	out := map[int32]string{}
+	for i, k := range m.Keys {
+		kt, ok1 := k.(*Term)
+		vt, ok2 := m.Vals[i].(*Term)
+		if !ok1 || !ok2 || !kt.Const || !vt.Const {
+			return nil
+		}
+		out[int32(signExt(kt.UVal, 32))] = vt.SVal
+	}
+	if len(out) == 0 {
+		return nil
+	}
+	return out
 }
